@@ -99,3 +99,48 @@ Example C07_steps_premises_inhabited :
   step_sem ex_ct (view ex_xp1) (chain ex_root [ex_ti6]) /\
   well_formed ex_xp2 = true /\ ~ step_sem ex_ct (view ex_xp2) (chain ex_root []).
 Proof. exact c07_steps_inhabited. Qed.
+
+(* non-vacuity witnesses *)
+(* the instance: tree and class table of Model/TreeQ.v (L, M a subclass of L, P; three levels; Proofs/C06Witness.v names
+   its positions), w7_xp = the relative "@child P//L" (elements w7_els), w7_xpL = "//L" (w7_elsL), w7_l3 = the two-step
+   path to L3 *)
+From Oak Require Import Proofs.C06Witness Proofs.C07Witness.
+(* C07_to_elements_ok, C07_to_elements_steps *)
+Theorem C07_ex_compile : well_formed w7_xp = true /\ well_formed w7_xpL = true
+  /\ to_elements w7_xp = Some w7_els /\ to_elements w7_xpL = Some w7_elsL /\ w7_els <> [] /\ length w7_els = 2
+  /\ to_elements {| xp_relative := false; xp_steps := [empty_step] |} = None.
+Proof. exact w7_compile. Qed.
+(* C07_match_sem: both verdicts *)
+Theorem C07_ex_match : wf_node ex_ct ex_root = true /\ nodup_tree ex_root /\ w7_els <> []
+  /\ path ex_root w7_l3 (ex_leaf 3 "L") /\ path ex_root [w6_ti6] (ex_leaf 6 "L")
+  /\ xmatch ex_ct ex_root w7_els (ex_leaf 3 "L") = Some (Ok true) /\ R ex_ct w7_els (chain ex_root w7_l3)
+  /\ xmatch ex_ct ex_root w7_els (ex_leaf 6 "L") = Some (Ok false).
+Proof. exact w7_match. Qed.
+(* C07_match_foreign *)
+Theorem C07_ex_foreign : wf_node ex_ct ex_root = true /\ nodup_tree ex_root /\ foreign ex_root (ex_leaf 9 "L")
+  /\ xmatch ex_ct ex_root w7_els (ex_leaf 9 "L") = Some ValueError.
+Proof. exact w7_foreign. Qed.
+(* C07_findall_sem, C07_findall_match (and C07_find_first): non-empty results, "//L" also finds the M node *)
+Theorem C07_ex_findall : wf_node ex_ct ex_root = true /\ nodup_tree ex_root /\ w7_els <> [] /\ w7_elsL <> []
+  /\ option_map (map addr) (findall ex_ct ex_root w7_els) = Some [3]
+  /\ option_map (map addr) (findall ex_ct ex_root w7_elsL) = Some [3; 4; 5; 6]
+  /\ Xpath.find ex_ct ex_root w7_elsL = Some (Some (ex_leaf 3 "L"))
+  /\ sem ex_ct w7_els ex_root (ex_leaf 3 "L").
+Proof. exact w7_findall. Qed.
+(* C07_chain_match_is_R, C07_chain_agree, C07_chain_search_is_R: a chain of three positions; both values occur *)
+Theorem C07_ex_chain : w7_els <> [] /\ length (chain ex_root w7_l3) = 3
+  /\ M ex_ct (rev w7_els) (rev (chain ex_root w7_l3)) = true /\ G ex_ct w7_els (chain ex_root w7_l3) = true
+  /\ M ex_ct (rev w7_els) (rev (chain ex_root [w6_ti6])) = false /\ G ex_ct w7_els (chain ex_root [w6_ti6]) = false.
+Proof. exact w7_chain. Qed.
+(* C07_steps_sem *)
+Theorem C07_ex_steps : to_elements w7_xp = Some w7_els /\ chain ex_root w7_l3 <> []
+  /\ length (sp_steps (view w7_xp)) = 2 /\ sp_absolute (view w7_xp) = false
+  /\ step_sem ex_ct (view w7_xp) (chain ex_root w7_l3) /\ ~ step_sem ex_ct (view w7_xp) (chain ex_root [w6_ti6]).
+Proof. exact w7_steps. Qed.
+(* C07_match_steps, C07_findall_steps, C07_findall_match_steps *)
+Theorem C07_ex_steps_tree : wf_node ex_ct ex_root = true /\ nodup_tree ex_root /\ well_formed w7_xp = true
+  /\ to_elements w7_xp = Some w7_els /\ path ex_root w7_l3 (ex_leaf 3 "L")
+  /\ xmatch ex_ct ex_root w7_els (ex_leaf 3 "L") = Some (Ok true)
+  /\ step_sem_node ex_ct (view w7_xp) ex_root (ex_leaf 3 "L")
+  /\ option_map (map addr) (findall ex_ct ex_root w7_els) = Some [3].
+Proof. exact w7_steps_tree. Qed.
